@@ -40,7 +40,9 @@ RULE = ("exhaustive: every atom with neutron data x 5 wavelengths x 4 entry poin
         "call); the atom sweep, the energy-table sweep and 500 (quick) further random compounds are repeated on "
         "a private table whose densities and masses were revised before nsf.init and whose neutron records "
         "were revised after it; a case is non-trivial when it has >= 2 atoms, an energy-dependent atom, an "
-        "ion, or a vector; distinct by canonical input")
+        "ion, or a vector; distinct by canonical input; copies (copy, deepcopy, pickles) of the neutron records of "
+        "every energy-dependent atom and a sample of the others queried directly at 3 wavelengths and installed in "
+        "a private table; 40% of the energy= cases also give a (different) wavelength=")
 
 WAVELENGTHS = [1.798, 0.05, 50.0, 0.7, 4.75]
 
@@ -84,12 +86,17 @@ def eval_real(pt, case):
         f = formula(f.structure, density=used * 1.75)
     if mode in ("wavelength", "energy"):
         beam = {mode: case["w"][0]}
+        if mode == "energy" and case.get("also_wavelength") is not None:
+            # both beam keywords in one call - documented: "If energy is specified then wavelength is ignored"
+            beam["wavelength"] = case["also_wavelength"]
         res = nsf.neutron_scattering(f, **beam, **kw)
         # the SLD-only entry points take the same keywords and return the first member
         case["_sld_entries"] = None
         if res[0] is not None:
             try:
                 alt = [nsf.neutron_sld(f, **beam, **kw), pt.neutron_sld(f, **beam, **kw)]
+                if not kw and "struct" not in case and not case.get("private"):
+                    alt.append(f.neutron_sld(**beam))          # the Formula method forwards the same keywords
                 case["_sld_entries"] = ([float(v) for v in res[0]], [[float(v) for v in a] for a in alt])
             except Exception as e:  # noqa
                 case["_sld_entries"] = "raises %s: %s" % (type(e).__name__, e)
@@ -145,8 +152,14 @@ def judge(run, pt, orc, case, reply, corr):
         run.violation("neutron_sld with the keywords neutron_scattering accepts %s" % se, case, site="neutron_sld")
     elif se is not None:
         ref, alts = se
-        for name, alt in zip(("nsf.neutron_sld", "periodictable.neutron_sld"), alts):
-            if not all(close(a, b, rel=1e-12, abs_=0.0) or a == b for a, b in zip(ref, alt)):
+        for name, alt in zip(("nsf.neutron_sld", "periodictable.neutron_sld", "Formula.neutron_sld"), alts):
+            if name == "Formula.neutron_sld":
+                # summed in Hill order rather than in formula order: compared cancellation-aware at 1e-9
+                same = list(alt) == list(ref) if isinstance(real[0], str) else \
+                    nc.sld_close(list(alt), list(ref), N, nc.sigma_total_xs(real[0]))
+            else:
+                same = all(close(a, b, rel=1e-12, abs_=0.0) or a == b for a, b in zip(ref, alt))
+            if not same:
                 run.violation("%s(%s=...) is %r, neutron_scattering(...)[0] is %r" % (name, case["mode"], alt, ref),
                               case, site="neutron_sld")
                 break
@@ -363,6 +376,74 @@ def stage_tables(run, pt, orc, tl, pools, label=""):
                           dict(atoms=[[z, A, 0, 1.0]], density=1.0, mode="wavelength", w=[w], **extra), site="scattering_by_wavelength")
 
 
+def stage_copies(run, pt, orc, pools, quick):
+    """copies of neutron records (copy.copy, copy.deepcopy, pickle round trips - e.g. sent to a worker, or revised
+    copies installed in a private table): a record queried directly still gives the numbers of the one-atom
+    compound at that atom's density, with the interpolated energy tables for the energy-dependent atoms"""
+    import copy
+    import pickle
+    from periodictable import nsf, core, mass, density
+    tbl = pt.elements
+    keys = list(pools.endep) + [k for i, k in enumerate(pools.data) if k not in set(pools.endep) and i % 23 == 0]
+    makers = [("copy.copy", copy.copy), ("copy.deepcopy", copy.deepcopy),
+              ("pickle protocol 2", lambda r: pickle.loads(pickle.dumps(r, 2))),
+              ("pickle", lambda r: pickle.loads(pickle.dumps(r, pickle.HIGHEST_PROTOCOL)))]
+    for (z, A) in keys:
+        atom = pyside.atom_of((z, A, 0), tbl)
+        ws = [0.5, 4.75, nc.gen_wavelength(run.rng, pools)]
+        for mi, (label, mk) in enumerate(makers):
+            for w in ws:
+                case = dict(atoms=[[z, A, 0, 1.0]], density=atom.density, mode="wavelength", w=[w], record_copy=label)
+                run.count(key="copy:%d:%d:%s:%r" % (z, A, label, w), nontrivial=True, tag="record-copy")
+                try:
+                    rec = mk(atom.neutron)
+                    r = nc.scat_tuple(rec.scattering(wavelength=w))
+                    sld = rec.sld(wavelength=w)
+                    ref = nc.scat_tuple(nsf.neutron_scattering(atom, wavelength=w))
+                except Exception as e:  # noqa
+                    run.violation("a %s of an atom's neutron record cannot be queried: %s: %s" % (label, type(e).__name__, e),
+                                  case, site="record-copy")
+                    continue
+                bad = orc.check(r, [((z, A, 0), 1.0)], atom.density, w)
+                N = atom.neutron._number_density * 1e-24
+                if bad or not nc.scat_close(r, ref, N):
+                    run.violation("a %s of atom.neutron queried directly differs from the one-atom compound at the atom's "
+                                  "density: %s" % (label, "; ".join(bad[:3]) or "%r vs %r" % (r, ref)), case, site="record-copy")
+                elif isinstance(r, list) and not nc.sld_close([float(v) for v in sld], r[:3], N, nc.sigma_total_xs(r)):
+                    run.violation("sld() of a %s of atom.neutron differs from its scattering()[0]" % label, case,
+                                  site="record-copy")
+    # a private table whose energy-dependent records are copies of the public records: the same results
+    try:
+        core.PRIVATE_TABLES.pop("ptv-neutron-copied", None)
+        T = core.PeriodicTable("ptv-neutron-copied")
+        mass.init(T)
+        density.init(T)
+        nsf.init(T)
+        for sym in ("Gd", "Sm", "Eu", "Er", "Yb", "Lu", "Dy"):
+            getattr(T, sym).neutron = copy.deepcopy(getattr(tbl, sym).neutron)
+        T.Gd[157].neutron = pickle.loads(pickle.dumps(tbl.Gd[157].neutron))
+    except Exception as e:  # noqa
+        run.violation("a private table with copied neutron records cannot be set up: %s: %s" % (type(e).__name__, e),
+                      dict(private=True, record_copy="table"), site="record-copy")
+        return
+    for text, atoms, rho in (("Gd2O3", [[64, 0, 0, 2.0], [8, 0, 0, 3.0]], 7.07), ("SmCo5", [[62, 0, 0, 1.0], [27, 0, 0, 5.0]], 8.4),
+                             ("Gd[157]2O3", [[64, 157, 0, 2.0], [8, 0, 0, 3.0]], 7.1), ("EuO", [[63, 0, 0, 1.0], [8, 0, 0, 1.0]], 8.2),
+                             ("Er2O3", [[68, 0, 0, 2.0], [8, 0, 0, 3.0]], 8.64), ("LuYbO3", [[71, 0, 0, 1.0], [70, 0, 0, 1.0], [8, 0, 0, 3.0]], 9.0)):
+        for w in (0.5, 1.0, nc.gen_wavelength(run.rng, pools)):
+            case = dict(atoms=atoms, density=rho, mode="wavelength", w=[w], record_copy="table")
+            run.count(key="copytable:%s:%r" % (text, w), nontrivial=True, tag="record-copy")
+            try:
+                r = nc.scat_tuple(nsf.neutron_scattering(text, density=rho, wavelength=w, table=T))
+            except Exception as e:  # noqa
+                run.violation("neutron_scattering on a private table with copied records raises %s: %s"
+                              % (type(e).__name__, e), case, site="record-copy")
+                continue
+            bad = orc.check(r, [((a[0], a[1], a[2]), a[3]) for a in atoms], rho, w)
+            if bad:
+                run.violation("a compound on a private table whose energy-dependent records are copies of the public "
+                              "records differs from the documented equations: " + "; ".join(bad[:3]), case, site="record-copy")
+
+
 def gen_case(rng, pools):
     if rng.random() < 0.15:
         s = nc.gen_struct(rng, pools)
@@ -385,6 +466,9 @@ def gen_case(rng, pools):
     elif r < 0.65:
         from periodictable import nsf
         case.update(mode="energy", w=[float(nsf.neutron_energy(nc.gen_wavelength(rng, pools)))])
+        if rng.random() < 0.4:
+            # a caller with a standing wavelength who also gives an energy: the energy is what counts
+            case["also_wavelength"] = nc.gen_wavelength(rng, pools)
     else:
         case.update(mode="vector", w=[nc.gen_wavelength(rng, pools) for _ in range(rng.randint(1, 5))],
                     array=rng.random() < 0.7)
@@ -448,6 +532,9 @@ FIXED_CASES = [
     dict(atoms=[[1, 0, 1, 1.0], [17, 0, -1, 1.0]], density=1.2, mode="wavelength", w=[6.0]),
     dict(atoms=[[1, 0, 0, 2.0], [8, 0, 0, 1.0]], density=0.9982, natural=True, mode="wavelength", w=[1.798]),
     dict(atoms=[[1, 2, 0, 2.0], [8, 0, 0, 1.0]], density=0.9982, natural=True, mode="wavelength", w=[1.798]),
+    # both beam keywords: "If energy is specified then wavelength is ignored"
+    dict(atoms=[[1, 0, 0, 2.0], [8, 0, 0, 1.0]], density=1.0, mode="energy", w=[5.0], also_wavelength=1.798),
+    dict(atoms=[[64, 0, 0, 2.0], [8, 0, 0, 3.0]], density=7.4, mode="energy", w=[80.0], also_wavelength=4.75),
 ]
 
 
@@ -463,6 +550,7 @@ def run(run: Run) -> int:
     stage_tables(run, pt, orc, tl, pools)
     stage_atoms(run, pt, orc, tl, pools, quick)
     stage_ions(run, pt, orc, tl, pools, quick)
+    stage_copies(run, pt, orc, pools, quick)
     run_cases(run, pt, orc, tl, FIXED_CASES, "neutron_scattering", tag="fixed")
     n = 2500 if quick else 300000
     cases = []
